@@ -236,6 +236,10 @@ package proxy
 //@        (let a = methodReceiver($interceptors[len($interceptors) - 1], "*interceptor.AccessControlInterceptor", "StreamIntercept") in
 //@           a != nil && $interceptors[len($interceptors) - 1] == a.StreamIntercept && fromPolicy(a, c.aclPolicy))
 //@   callpre GetServerTLSConfig: @tls_builder: $serverConfig == tlsConfig
+// C19: with TLS enabled the options either carry transport credentials or start-up fails - a TLS configuration that
+// cannot be built (unusable CA bundle, unloadable key pair) never degrades to a plaintext listener
+//@   counts Creds
+//@   ensures @tls_or_refuse_to_start: result1 == nil && ((tlsConfig.CertificatePath != "" && tlsConfig.KeyPath != "") || tlsConfig.CAServerName != "") ==> calls(Creds) == 1
 
 //@ extern quiet NewReplicationStreamObserver
 //@ extern quiet mux.NewGRPCMuxManager
